@@ -22,6 +22,9 @@ CMP = {'__lt__': ast.Lt, '__le__': ast.LtE, '__gt__': ast.Gt, '__ge__': ast.GtE,
 OPNAME = {'__lt__': 'lt', '__le__': 'le', '__gt__': 'gt', '__ge__': 'ge', '__eq__': 'eq'}
 
 
+_OPERATOR_CMP = {'lt': ast.Lt, 'le': ast.LtE, 'gt': ast.Gt, 'ge': ast.GtE, 'eq': ast.Eq, 'ne': ast.NotEq}
+
+
 def rule_cmp(ctx):
     r = RuleResult('C10.cmp', 'every UTPM comparison method returns numpy.all(<its own operator>(zeroth coefficient of self, '
                               'zeroth coefficient of other | other)) on every path; Function comparisons call the operator of '
@@ -39,9 +42,20 @@ def rule_cmp(ctx):
             v = ret.value
             ok = False
             why = 'not of the form numpy.all(a <op> b)'
-            if isinstance(v, ast.Call) and dotted_name(v.func) in ('numpy.all', 'numpy.alltrue') and len(v.args) == 1 \
-                    and isinstance(v.args[0], ast.Compare) and len(v.args[0].ops) == 1:
-                c = v.args[0]
+            inner = v.args[0] if isinstance(v, ast.Call) and dotted_name(v.func) in ('numpy.all', 'numpy.alltrue') and len(v.args) == 1 else None
+            if isinstance(inner, ast.Call) and (dotted_name(inner.func) or '').startswith('operator.') and len(inner.args) == 2 \
+                    and (dotted_name(inner.func) or '').split('.')[1] in _OPERATOR_CMP:
+                # numpy.all(operator.lt(a, b)) is numpy.all(a < b)
+                inner = ast.copy_location(ast.Compare(left=inner.args[0], ops=[_OPERATOR_CMP[dotted_name(inner.func).split('.')[1]]()],
+                                                      comparators=[inner.args[1]]), inner)
+            if isinstance(inner, ast.Compare) and len(inner.ops) == 1:
+                c = inner
+                if isinstance(c.left, ast.Name):
+                    # a local holding the left operand (`lhs = self.data[0, ...]`)
+                    defs = [st_.value for st_ in walk_no_nested(fi.node) if isinstance(st_, ast.Assign) and len(st_.targets) == 1
+                            and isinstance(st_.targets[0], ast.Name) and st_.targets[0].id == c.left.id]
+                    if len(defs) == 1:
+                        c = ast.copy_location(ast.Compare(left=defs[0], ops=c.ops, comparators=c.comparators), c)
                 left, right = norm(c.left), norm(c.comparators[0])
                 if not isinstance(c.ops[0], op):
                     why = 'uses operator %s' % type(c.ops[0]).__name__
@@ -765,12 +779,22 @@ def rule_linalg_kinds(ctx):
         br = _branches(fi)
         seen = set()
         raises = False
+        remaining = [(a_, b_) for a_ in 'Ur' for b_ in 'Ur']        # operand-kind combinations not yet taken by an earlier branch
         for test, body in br:
             if test is None:
                 if any(isinstance(n, ast.Raise) for s in body for n in ast.walk(s)):
                     raises = True
                 continue
-            kind = _operand_kinds(test, p1, p2)
+            # the branch serves the combinations that satisfy its test among those left over by the earlier branches
+            truth = {cmb: _test_truth(test, p1, p2, cmb) for cmb in remaining}
+            kind = None
+            if all(v is not None for v in truth.values()):
+                mine = [cmb for cmb, v in truth.items() if v]
+                if len(mine) == 1:
+                    kind = mine[0]
+                remaining = [cmb for cmb in remaining if not truth[cmb]]
+            if kind is None:
+                kind = _operand_kinds(test, p1, p2)
             if kind is None:
                 r.unknown(fi.site(test), 'operand test `%s` not recognised' % norm(test))
                 continue
@@ -824,6 +848,28 @@ def rule_linalg_kinds(ctx):
     return r
 
 
+def _test_truth(test, p1, p2, combo):
+    """truth value of an operand-kind test for a combination of kinds (U = Taylor polynomial, r = raw array/scalar)"""
+    kinds = {p1: combo[0], p2: combo[1]}
+    if isinstance(test, ast.BoolOp):
+        vals = [_test_truth(v, p1, p2, combo) for v in test.values]
+        if any(v is None for v in vals):
+            return None
+        return all(vals) if isinstance(test.op, ast.And) else any(vals)
+    if isinstance(test, ast.UnaryOp) and isinstance(test.op, ast.Not):
+        v = _test_truth(test.operand, p1, p2, combo)
+        return None if v is None else (not v)
+    if isinstance(test, ast.Call) and isinstance(test.func, ast.Name) and test.func.id == 'isinstance' and len(test.args) == 2 \
+            and isinstance(test.args[0], ast.Name) and test.args[0].id in kinds:
+        cl = [dotted_name(x) or '' for x in (test.args[1].elts if isinstance(test.args[1], ast.Tuple) else [test.args[1]])]
+        k = kinds[test.args[0].id]
+        if all(c.split('.')[-1] in ('UTPM', 'cls') or c.endswith('__class__') for c in cl):
+            return k == 'U'
+        if all(c in ('numpy.ndarray', 'ndarray') for c in cl):
+            return k == 'r'
+    return None
+
+
 def _operand_kinds(test, p1, p2):
     txt = norm(test)
     def k(p):
@@ -859,7 +905,8 @@ def rule_slice_ops(ctx):
                 d = dotted_name(c.func) or ''
                 if d.split('.')[0] in ('numpy', 'scipy') and any(isinstance(a, ast.Subscript) or isinstance(a, ast.Name) and a.id in ('tmp',) for a in c.args):
                     last = d.split('.')[-1]
-                    if last in ('shape', 'zeros', 'promote_types', 'add', 'zeros_like'):
+                    if last in ('shape', 'zeros', 'promote_types', 'add', 'subtract', 'zeros_like', 'array', 'asarray', 'ascontiguousarray', 'copy', 'copyto',
+                                'empty', 'empty_like', 'result_type', 'ndim'):
                         continue
                     used.setdefault(last, c)
         bad = {n: c for n, c in used.items() if n not in allowed}
@@ -1557,6 +1604,12 @@ def rule_operand_order(ctx):
                             r.ok(construct='%s:out@%d' % (name, n_.lineno), sample='UTPM.%s writes into `%s` (self-derived)' % (name, norm(o_)))
                 elif isinstance(n_, ast.Call) and isinstance(n_.func, ast.Attribute) and n_.func.attr in ('_truediv', '_floordiv', '_itruediv') and len(n_.args) >= 2:
                     judge(n_.args[0], n_.args[1], n_, n_.func.attr)
+                elif isinstance(n_, ast.Call) and (dotted_name(n_.func) or '') in ('numpy.subtract', 'numpy.divide', 'numpy.true_divide', 'numpy.floor_divide') \
+                        and len(n_.args) >= 2:
+                    judge(n_.args[0], n_.args[1], n_, (dotted_name(n_.func) or '').split('.')[-1])
+                elif isinstance(n_, ast.Call) and (dotted_name(n_.func) or '') == 'numpy.add' and len(n_.args) >= 2 and not name.startswith('__i') \
+                        and isinstance(n_.args[0], ast.Subscript) and _first_index_is_zero(n_.args[0]):
+                    judge(n_.args[0], n_.args[1], n_, 'add0')
 
         # one pass in source order: the branches of the operand-kind chain are exclusive and each (re)binds its locals
         # before using them, so the provenance at a statement is the one established by the textually preceding bindings
@@ -1564,6 +1617,22 @@ def rule_operand_order(ctx):
         simple.sort(key=lambda st: (st.lineno, st.col_offset))
         for st in simple:
             sites(st)
+            if isinstance(st, ast.Expr) and isinstance(st.value, ast.Call):
+                cc = st.value
+                dst, srcs = None, []
+                if (dotted_name(cc.func) or '') == 'numpy.copyto' and len(cc.args) >= 2:
+                    dst, srcs = cc.args[0], [cc.args[1]]
+                elif any(k.arg == 'out' for k in cc.keywords):
+                    dst, srcs = [k.value for k in cc.keywords if k.arg == 'out'][0], list(cc.args)
+                if dst is not None:
+                    b_ = dst
+                    while isinstance(b_, (ast.Subscript, ast.Attribute)):
+                        b_ = b_.value
+                    if isinstance(b_, ast.Name) and b_.id not in ('self',):
+                        add = set()
+                        for s_ in srcs:
+                            add |= pv(s_)
+                        prov[b_.id] = prov.get(b_.id, set()) | add
             if isinstance(st, ast.Assign):
                 t = st.targets[0]
                 v = st.value
@@ -1583,7 +1652,9 @@ def rule_operand_order(ctx):
                         b_ = b_.value
                     if isinstance(b_, ast.Name) and b_.id not in ('self',):
                         prov[b_.id] = prov.get(b_.id, set()) | pv(v)
-        if n_sites == 0:
+        if n_sites == 0 and name in ('__add__', '__iadd__'):
+            r.ok(construct=name + ':symmetric', sample='UTPM.%s: no asymmetric use of the operands' % name)
+        elif n_sites == 0:
             r.unknown(fi.site(), 'no subtraction/division between operand-derived values found')
     r.floor = 8
     return r
